@@ -190,6 +190,17 @@ def run_for_property(prop, tier, scratch, seed=0, only=None):
           if todo:
               target = os.path.join(CACHE, "kani-target")
               os.makedirs(target, exist_ok=True)
+              # The target directory is shared by all trees ever checked, and this cargo decides freshness of the root package
+              # by source mtimes only (its build directory does not depend on the overlay's path): a copy of a tree whose
+              # files are older than the last build would be taken as up to date and verified against the PREVIOUS tree's
+              # artifacts.  Stamp every source of this overlay with the current time, under the lock, right before the build.
+              _now = time.time()
+              for _root, _dirs, _files in os.walk(ov):
+                  for _f in _files:
+                      try:
+                          os.utime(os.path.join(_root, _f), (_now, _now))
+                      except OSError:
+                          pass
               env = dict(os.environ, CARGO_NET_OFFLINE="true", CARGO_TARGET_DIR=target)
               jobs = min(len(todo), int(os.environ.get("VERIF_KANI_JOBS", "8")))
               cmd = kani_cmd([h["name"] for h in todo], jobs)
@@ -288,10 +299,21 @@ def replay_counterexample(o, scratch_root="/dev/shm"):
         env = dict(os.environ, CARGO_NET_OFFLINE="true", CARGO_TARGET_DIR=target)
         cmd = ["cargo", "kani", "-Z", "function-contracts", "-Z", "stubbing", "-Z", "concrete-playback",
                "--concrete-playback=print", "--harness", name, "--output-format=terse"]
-        try:
-            pr = subprocess.run(cmd, cwd=ov, env=env, capture_output=True, text=True, timeout=1800)
-        except subprocess.TimeoutExpired:
-            return {"input_found": False, "note": "concrete playback timed out"}
+        import fcntl
+        os.makedirs(CACHE, exist_ok=True)
+        with open(os.path.join(CACHE, "kani.lock"), "w") as _lk:
+            fcntl.flock(_lk, fcntl.LOCK_EX)     # same lock and same freshness stamp as run_for_property
+            _now = time.time()
+            for _root, _dirs, _files in os.walk(ov):
+                for _f in _files:
+                    try:
+                        os.utime(os.path.join(_root, _f), (_now, _now))
+                    except OSError:
+                        pass
+            try:
+                pr = subprocess.run(cmd, cwd=ov, env=env, capture_output=True, text=True, timeout=1800)
+            except subprocess.TimeoutExpired:
+                return {"input_found": False, "note": "concrete playback timed out"}
         txt = pr.stdout
         m = re.search(r"```\n(.*?)```", txt, re.S)
         test = m.group(1) if m else None
